@@ -23,6 +23,13 @@ def parse_priors(prior_string):
 
     function_name = actual_func.func.id
 
+    if actual_func.args:
+        # Only keyword arguments are collected below; positional ones
+        # would be dropped silently and the prior built from its defaults
+        raise MalformedPriorInput('Positional arguments are not supported '
+                                  'in prior definitions, use keyword=value '
+                                  f'(got "{prior_string}")')
+
     func_args = {kw.arg: ast.literal_eval(kw.value)
                  for kw in actual_func.keywords}
 
